@@ -7,7 +7,8 @@
    covered by running the extracted decoder [dp_dump] on every pack the creator writes. *)
 From Coq Require Import List Arith NArith ZArith.
 From Jbk Require Import Base.ListExtra Base.Bytes Base.Parser Format.Structs Content.Pack
-  Dir.Layout Dir.Values Dir.Descr Dir.Variants Dir.EntryStore Dir.EntryStoreVariants.
+  Dir.Layout Dir.Values Dir.Descr Dir.Variants Dir.EntryStore Dir.EntryStoreVariants
+  Base.Prog Format.Roundtrips Content.FilePack Dir.DirFilePack.
 Import ListNotations.
 
 (* --- one property of one entry, wherever it sits in the entry ([pre] before, [post] after) --- *)
@@ -151,6 +152,26 @@ Theorem C02_written_variant_descriptors_parse_to_the_layout :
       Ok (variant_layout count common vshapes vsize, r).
 Proof. exact variant_layout_parsed. Qed.
 
+(* --- through the file: for EVERY file in which a directory pack's structures are placed (header blocks, pointer tables,
+   the store's tail block and data block anywhere, in any order), the reader opens the pack, finds the store and reads
+   back every entry the writer put there --- *)
+Theorem C02_stored_entries_read_back_through_the_file :
+  forall f base h dh vptrs eptrs iptrs store shape (rows : list (list wfield)) k so j row,
+  dir_pack_at f base h dh vptrs eptrs iptrs ->
+  Forall (row_has_shape store shape) rows -> nth_error rows j = Some row ->
+  (N.of_nat (length rows) < 2 ^ 32)%N -> length shape <= 255 -> (N.of_nat (psize (map raw_of shape)) < 65536)%N ->
+  Forall wf_wprop shape -> Forall (fun w => match w with WVariantId _ => False | _ => True end) shape ->
+  let tail := ser_flat_tail (N.of_nat (length rows)) (psize (map raw_of shape)) shape in
+  let data := concat (map (fun r => concat (map ser_field r)) rows) in
+  nth_error eptrs k = Some so -> wf_sized_offset so -> so_size so = lenN tail ->
+  placed f (base + so_off so)%N tail -> (lenN data + 4 <= so_off so)%N -> placed f (base + so_off so - lenN data - 4)%N data ->
+  exists d ly dat e,
+    run f (dp_open_p base) = Ok d /\
+    run f (dp_entry_store_p d (N.of_nat k)) = Ok (ly, dat) /\
+    entry_bytes ly dat (N.of_nat j) = Some e /\
+    read_entry store ly e = (None, shown row).
+Proof. exact stored_entries_read_back_through_the_file. Qed.
+
 Print Assumptions C02_every_entry_reads_back.
 Print Assumptions C02_written_descriptors_parse_to_the_layout.
 Print Assumptions C02_unsigned_field.
@@ -173,3 +194,4 @@ Print Assumptions C02_index_window_outside.
 Print Assumptions C02_index_window_inside.
 Print Assumptions C02_every_variant_entry_reads_back.
 Print Assumptions C02_written_variant_descriptors_parse_to_the_layout.
+Print Assumptions C02_stored_entries_read_back_through_the_file.
